@@ -48,6 +48,8 @@ type Case struct {
 	// concurrent cases: one op list per goroutine, Ops unused
 	Threads [][]Op `json:"threads,omitempty"`
 	Ticker  int64  `json:"ticker,omitempty"` // a goroutine advances the clock by this much between yields
+	// a second call arrives while the first call's Send through the Broker is parked
+	Blocked *Blocked `json:"blocked,omitempty"`
 }
 
 const defaultExp = int64(10 * time.Second)
@@ -300,6 +302,8 @@ type CEvent struct {
 type CObs struct {
 	Events       []CEvent `json:"events"`
 	Compose      [][]pair `json:"compose"`
+	Sent         [][]pair `json:"sent"`
+	CallsOK      bool     `json:"calls_ok"`
 	FinalRes     int      `json:"final_res"`
 	FinalGated   []Grp    `json:"final_gated,omitempty"`
 	SentGateable bool     `json:"sent_gateable,omitempty"`
@@ -367,9 +371,136 @@ func execConc(c Case) (o CObs, panicked interface{}) {
 	}
 	w.mu.Lock()
 	o.Compose = w.composeArgs
+	o.Sent = w.sent
+	o.CallsOK = true
 	o.SentGateable = w.sentGateable
 	w.mu.Unlock()
 	return
+}
+
+// ---------- a second call arriving while a Send through the Broker is in flight ----------
+// The harness Sender parks the FIRST Send it receives until released.  The first call (a Process whose sweep finds expired
+// groups, a FlushAll or a Close) is started and reaches that Send; then the second call is started on the same filter and
+// given a moment; then the Send is released.  The filter holds its mutex across the Send, so the second call can only run
+// afterwards and every group is composed and sent exactly once whatever the second call is.
+type Blocked struct {
+	First   string `json:"first"`   // process flushall close
+	Second  string `json:"second"`  // process process-flush flushall close
+	Groups  int    `json:"groups"`  // open groups (ids 1..Groups) before the first call
+	Expired bool   `json:"expired"` // the clock is advanced past their expiry before the first call
+}
+
+type blockSender struct {
+	inner   *sender
+	once    sync.Once
+	entered chan struct{}
+	release chan struct{}
+}
+
+func (b *blockSender) Send(ctx context.Context, t el.EventType, p interface{}) (el.Status, error) {
+	st, err := b.inner.Send(ctx, t, p)
+	b.once.Do(func() {
+		close(b.entered)
+		<-b.release
+	})
+	return st, err
+}
+
+func execBlocked(c Case) (o CObs, panicked interface{}) {
+	sp := c.Blocked
+	w := &world{cfg: c.Cfg, now: 1000}
+	cur = w
+	bs := &blockSender{inner: &sender{w}, entered: make(chan struct{}), release: make(chan struct{})}
+	f := &gated.Filter{Expiration: time.Duration(w.cfg.Exp), Broker: bs, NowFunc: func() time.Time { return time.Unix(0, atomic.LoadInt64(&w.now)) }}
+	ctx := context.Background()
+	var emu sync.Mutex
+	callsOK := true
+	process := func(id int, flush bool, n int) {
+		defer func() {
+			if r := recover(); r != nil {
+				emu.Lock()
+				panicked = r
+				emu.Unlock()
+			}
+		}()
+		ev := &el.Event{Type: "t", Payload: &gp{id: idName[id], flush: flush, n: n}}
+		out, err := f.Process(ctx, ev)
+		res, comp := classify(ev, out, err, false, n)
+		emu.Lock()
+		o.Events = append(o.Events, CEvent{id, n, res, comp})
+		emu.Unlock()
+	}
+	call := func(kind string, n int) func() {
+		return func() {
+			var err error
+			switch kind {
+			case "process":
+				process(sp.Groups+1+n/2000, false, n) // a new id: 1st call Groups+1, 2nd call Groups+2
+				return
+			case "process-flush":
+				process(1, true, n)
+				return
+			case "flushall":
+				err = f.FlushAll(ctx)
+			case "close":
+				err = f.Close(ctx)
+			}
+			if err != nil {
+				emu.Lock()
+				callsOK = false
+				emu.Unlock()
+			}
+		}
+	}
+	for i := 1; i <= sp.Groups; i++ {
+		process(i, false, 1000+i)
+		atomic.AddInt64(&w.now, 1)
+	}
+	if sp.Expired {
+		atomic.AddInt64(&w.now, 100)
+	}
+	done1, done2 := make(chan struct{}), make(chan struct{})
+	go func() { defer close(done1); call(sp.First, 2001)() }()
+	select {
+	case <-bs.entered:
+	case <-done1: // the first call sent nothing: nothing to overlap with
+	}
+	go func() { defer close(done2); call(sp.Second, 3001)() }()
+	select {
+	case <-done2:
+	case <-time.After(30 * time.Millisecond):
+	}
+	close(bs.release)
+	<-done1
+	<-done2
+	err := f.FlushAll(ctx)
+	o.FinalRes = 4
+	if err != nil {
+		o.FinalRes = 3
+	}
+	o.FinalGated, _ = snapshot(f)
+	w.mu.Lock()
+	o.Compose = w.composeArgs
+	o.Sent = w.sent
+	o.SentGateable = w.sentGateable
+	w.mu.Unlock()
+	o.CallsOK = callsOK
+	return
+}
+
+func genBlocked(e *emitter) {
+	for _, groups := range []int{1, 2, 3} {
+		for _, first := range []string{"process", "flushall", "close"} {
+			for _, second := range []string{"process", "process-flush", "flushall", "close"} {
+				for _, expired := range []bool{true, false} {
+					if first == "process" && !expired {
+						continue // no sweep, no Send to park
+					}
+					e.emitConc(Case{Gen: "blocked-send", Cfg: Cfg{Broker: true, Exp: 10}, Blocked: &Blocked{first, second, groups, expired}})
+				}
+			}
+		}
+	}
 }
 
 // ---------- re-entry scenarios (gated part of C12, and C11's "composites through the Broker are never Gateable") ----------
@@ -547,7 +678,7 @@ func concLit(c Case, o CObs) string {
 	for i, e := range o.Events {
 		evs[i] = fmt.Sprintf("(%s,%s,%s,%s)", hc.N(e.ID), hc.N(e.N), hc.N(e.Res), pairsLit(e.Comp))
 	}
-	return fmt.Sprintf("Build_ccase %s (Build_cobs %s\n  %s %s %s %s)", hc.N(c.ID), hc.List(evs), pairssLit(o.Compose), hc.N(o.FinalRes), gatedLit(o.FinalGated), hc.B(o.SentGateable))
+	return fmt.Sprintf("Build_ccase %s (Build_cobs %s\n  %s %s %s %s %s %s)", hc.N(c.ID), hc.List(evs), pairssLit(o.Compose), pairssLit(o.Sent), hc.B(o.CallsOK), hc.N(o.FinalRes), gatedLit(o.FinalGated), hc.B(o.SentGateable))
 }
 
 // ---------- emitter ----------
@@ -646,7 +777,14 @@ func (e *emitter) emitConc(c Case) {
 	c.ID = e.next
 	js, _ := json.Marshal(c)
 	fmt.Fprintf(e.side, "%s\n", js)
-	o, p := execConc(c)
+	var o CObs
+	var p interface{}
+	if c.Blocked != nil {
+		o, p = execBlocked(c)
+		e.stats["blocked_send_cases"]++
+	} else {
+		o, p = execConc(c)
+	}
 	if p != nil {
 		e.panics = append(e.panics, fmt.Sprintf("case %d: panic: %v", c.ID, p))
 		return
@@ -884,7 +1022,7 @@ func runCorpus(e *emitter, path string) {
 			continue
 		}
 		c.Gen = "corpus"
-		if len(c.Threads) > 0 {
+		if len(c.Threads) > 0 || c.Blocked != nil {
 			e.emitConc(c)
 		} else {
 			e.emit(c)
@@ -938,12 +1076,22 @@ func main() {
 		var wrapper struct {
 			Case Case `json:"case"`
 		}
-		if err := json.Unmarshal(data, &wrapper); err != nil || (len(wrapper.Case.Ops) == 0 && len(wrapper.Case.Threads) == 0) {
+		if err := json.Unmarshal(data, &wrapper); err != nil || (len(wrapper.Case.Ops) == 0 && len(wrapper.Case.Threads) == 0 && wrapper.Case.Blocked == nil) {
 			_ = json.Unmarshal(data, &wrapper.Case)
 		}
 		c := wrapper.Case
 		js, _ := json.Marshal(c.Cfg)
 		fmt.Printf("configuration %s\n", js)
+		if c.Blocked != nil {
+			o, p := execBlocked(c)
+			bj, _ := json.Marshal(c.Blocked)
+			js, _ := json.Marshal(o)
+			fmt.Printf("second call while the first call's Send is parked %s\n  -> %s\n", bj, js)
+			if p != nil {
+				fmt.Printf("PANIC: %v\n", p)
+			}
+			return
+		}
 		if len(c.Threads) > 0 {
 			o, p := execConc(c)
 			js, _ := json.Marshal(o)
@@ -1004,6 +1152,8 @@ func main() {
 			genRandom(e, r.Fork(), *nRandom, *randLen, *randIDs)
 		case "conc":
 			genConc(e, r.Fork(), *nConc)
+		case "blocked":
+			genBlocked(e)
 		case "":
 		default:
 			fmt.Fprintf(os.Stderr, "unknown mode %s\n", m)
